@@ -517,7 +517,8 @@ def c15(ctx, res):
             probs.append("a rejected entry is removed %d times" % len(removes))
         if (not verdict) and removes:
             ra = removes[0][1]
-            if not any(key0 in a for a in ra[1:]):
+            # (by the visited entry's own key, or through the very handle that designates the visited entry)
+            if not any(key0 in a or a == cur0 for a in ra[1:]):
                 probs.append("the removal does not use the visited entry's own key: %s" % [a[:120] for a in ra])
         if promos:
             probs.append("retain relinks an entry (%s): survivors must keep their place" % promos[0][1])
@@ -1439,7 +1440,9 @@ def c14(ctx, res):
             if "p1" in tgt.split("{")[0]:
                 probs.append("the clone of an entry is inserted into the source (`%s`)" % tgt[:60])
             # which side?  walking from the LRU end, each clone must become the MRU of the new cache (and vice versa)
-            promoter = any(pp in set(x.path for x in list_primitives(ctx)[0]) for pp in cg.reach(inserts[0][4].target))
+            # (the splice may sit inside the inserting routine or follow it as a separate call of the same iteration)
+            insset = set(x.path for x in list_primitives(ctx)[0])
+            promoter = any(pp in insset for x in pr.calls if x[4] is not None and x[4].target is not None for pp in cg.reach(x[4].target))
             if direction == A and not promoter:
                 probs.append("walking from the least-recently-used end but the clones are not linked at the MRU end of the new cache")
             if direction == Bm:
@@ -1459,7 +1462,14 @@ def c14(ctx, res):
             promo_calls = [cc for cc in cg.calls.get(c.target.path, []) if cc.target is not None and
                            any(pp in set(x.path for x in ins) for pp in cg.reach(cc.target))]
             if not promo_calls or not g.all_paths_pass(0, g.return_blocks(), [cc.bb for cc in promo_calls]):
-                ok3 = False
+                # not inside the inserting routine: then the caller must splice the node in before the iteration ends
+                gc = cfg_of(b)
+                inspaths = set(x.path for x in ins)
+                promo_here = [cc.bb for cc in cg.calls.get(b.path, []) if cc.target is not None and
+                              any(pp in inspaths for pp in cg.reach(cc.target))]
+                heads = [h for h, blocks in gc.loops().items() if c.bb in blocks]
+                if not promo_here or not all(gc.all_paths_pass(s_, list(gc.return_blocks()) + heads, promo_here) for s_ in gc.nsucc[c.bb]):
+                    ok3 = False
     res.oblige("C14.3 every cloned entry passes through the splice-in primitive (which overwrites both copied links) before the routine returns", ok3,
                key="C14.3:copied-links-overwritten", loc=loc, rule="C14.3 independence",
                msg="a cloned entry can stay in the new cache with links copied from the source: later operations on the clone would write into the source")
